@@ -26,11 +26,12 @@ import (
 // of the space stays checked; its pinned reproduction then prints KNOWN-FINDING instead of
 // failing.
 const (
-	c32FDropIdxCol    = "C32-patch-drop-column-before-index" // DROP COLUMN is emitted before DROP INDEX of that column's index: the patch fails with error 1091
-	c32FPKIndex       = "C32-patch-create-omits-pk-index"    // CREATE TABLE of a patch omits a secondary index whose columns are exactly the primary key
-	c32FRenamedNull   = "C32-patch-renamed-column-set-null"  // a row whose value in a renamed column becomes NULL gets no UPDATE (from_ values are matched to the target schema by column name)
-	c32FRenameDropIdx = "C32-patch-rename-table-drop-index"  // after RENAME TABLE the DROP INDEX statements still name the old table: error 1146
-	c32FColOrder      = "C32-patch-column-position"          // ADD COLUMN is emitted without FIRST/AFTER: the patched table has another column order than `to`
+	c32FDropIdxCol    = "C32-patch-drop-column-before-index"   // DROP COLUMN is emitted before DROP INDEX of that column's index: the patch fails with error 1091
+	c32FPKIndex       = "C32-patch-create-omits-pk-index"      // CREATE TABLE of a patch omits a secondary index whose columns are exactly the primary key
+	c32FRenamedNull   = "C32-patch-renamed-column-set-null"    // a row whose value in a renamed column becomes NULL gets no UPDATE (from_ values are matched to the target schema by column name)
+	c32FRenameDropIdx = "C32-patch-rename-table-drop-index"    // after RENAME TABLE the DROP INDEX statements still name the old table: error 1146
+	c32FRenameOnto    = "C32-patch-rename-onto-dropped-column" // RENAME COLUMN x TO y is emitted before DROP y: error "column already exists"
+	c32FColOrder      = "C32-patch-column-position"            // ADD COLUMN is emitted without FIRST/AFTER: the patched table has another column order than `to`
 )
 
 // c32Excluded: the shape is switched off because the finding is listed open (or named in
@@ -121,6 +122,24 @@ func c32ShapeRenamedNull(from, to *hTable) bool {
 	return false
 }
 
+// c32ShapeRenameOnto: a column takes over the name of another column of `from` that is gone
+// (or itself renamed) at `to`.
+func c32ShapeRenameOnto(from, to *hTable) bool {
+	if from == nil || to == nil {
+		return false
+	}
+	for _, tc := range to.Cols {
+		for _, fc := range from.Cols {
+			if fc.UID == tc.UID && fc.Name != tc.Name {
+				if i := from.colIndex(tc.Name); i >= 0 && from.Cols[i].UID != tc.UID {
+					return true
+				}
+			}
+		}
+	}
+	return false
+}
+
 // c32ShapePKIndex: the table is created by the patch and has an index on exactly its key columns.
 func c32ShapePKIndex(from, to *hTable) bool {
 	if from != nil || to == nil {
@@ -185,6 +204,32 @@ func c32KeyCols(t *hTable) string {
 		}
 	}
 	return strings.Join(p, ",")
+}
+
+// c32PKChanged: the key column types differ, or the table at `to` is another incarnation than
+// the one at `from` (its key columns are different columns, e.g. the old table lives on under
+// another name and this name was re-created): dolt then reports a primary key set change.
+func c32PKChanged(from, to *hTable) bool {
+	if c32KeyCols(from) != c32KeyCols(to) {
+		return true
+	}
+	var a, b []int
+	for _, c := range from.Cols {
+		if c.PK {
+			a = append(a, c.UID)
+		}
+	}
+	for _, c := range to.Cols {
+		if c.PK {
+			b = append(b, c.UID)
+		}
+	}
+	for i := range a {
+		if a[i] != b[i] {
+			return true
+		}
+	}
+	return false
 }
 
 // c32RowDiffers says whether dolt must / may report a row present on both sides.
@@ -508,12 +553,15 @@ func (c *c32Checker) diffStat(fi, ti int, exp map[string]c32Expected, renamed ma
 		}
 		dataChange := e.added+e.removed+e.mustMod > 0
 		if r == nil {
-			if dataChange {
+			if dataChange && !(from != nil && to != nil && c32PKChanged(from, to)) {
 				c.fail("C32 dolt_diff_stat: table %s has %d added, %d removed, %d modified rows in the model but no row: %s -> %v", name, e.added, e.removed, e.mustMod, q, rows)
 			}
 			continue
 		}
 		n := func(i int) int { v, _ := strconv.Atoi(r[i]); return v }
+		if from != nil && to != nil && c32PKChanged(from, to) && n(1)+n(2)+n(3)+n(4)+n(5)+n(6) == 0 {
+			continue // "stat cannot be determined, primary key set changed": dolt reports an empty row with a warning
+		}
 		oldN, newN := 0, 0
 		if from != nil {
 			oldN = len(from.Rows)
@@ -615,6 +663,9 @@ func (c *c32Checker) diffSummary(fi, ti int) {
 				c.fail("C32 dolt_diff_summary: table %s exists only at `from`; want a dropped/renamed row, got %q: %s -> %v", name, r, q, rows)
 			}
 		default:
+			if c32PKChanged(from, to) {
+				continue // primary key set changed: dolt warns and renders no summary row
+			}
 			r := toSeen[name]
 			if r != nil && r[0] != name {
 				r = nil // a rename from another table onto this name; then this name must also appear as a from table
@@ -677,7 +728,7 @@ func (c *c32Checker) patch(fi, ti int) {
 	fc, tc := h.Commits[fi], h.Commits[ti]
 	for _, name := range h.cfg.TablePool {
 		from, to := fc.State[name], tc.State[name]
-		if from != nil && to != nil && c32KeyCols(from) != c32KeyCols(to) {
+		if from != nil && to != nil && c32PKChanged(from, to) {
 			return // primary key change: dolt_patch documents that it cannot produce the data diff
 		}
 		if from != nil && to != nil && c32Narrows(from, to) {
@@ -702,7 +753,7 @@ func (c *c32Checker) patch(fi, ti int) {
 			}
 		}
 		if (c32ShapeDropIdxCol(from, to) && c32Excluded(c32FDropIdxCol)) || (c32ShapePKIndex(from, to) && c32Excluded(c32FPKIndex)) ||
-			(c32ShapeRenamedNull(from, to) && c32Excluded(c32FRenamedNull)) {
+			(c32ShapeRenamedNull(from, to) && c32Excluded(c32FRenamedNull)) || (c32ShapeRenameOnto(from, to) && c32Excluded(c32FRenameOnto)) {
 			c.st.excluded++
 			return
 		}
@@ -777,9 +828,19 @@ func (c *c32Checker) patch(fi, ti int) {
 		if err1 != nil || err2 != nil {
 			c.fail("C32 dolt_patch: SHOW CREATE TABLE %s: %v / %v", name, err1, err2)
 		}
-		if c32ShapeColOrder(fc.State[name], want) && c32Excluded(c32FColOrder) {
-			c.st.excluded++
-			continue
+		if c32Excluded(c32FColOrder) {
+			shape := c32ShapeColOrder(fc.State[name], want)
+			if fc.State[name] == nil { // possibly renamed from a table that exists only at `from`
+				for _, other := range h.cfg.TablePool {
+					if tc.State[other] == nil && c32ShapeColOrder(fc.State[other], want) {
+						shape = true
+					}
+				}
+			}
+			if shape {
+				c.st.excluded++
+				continue
+			}
 		}
 		if len(sc.Data) != 1 || len(sw.Data) != 1 || sc.Data[0][1] != sw.Data[0][1] {
 			c.fail("C32 dolt_patch: after applying %s (#%d -> #%d) SHOW CREATE TABLE %s differs\n got   %v\n at to %v\nstatements:\n%s", q, fi, ti, name, sc.Data, sw.Data, strings.Join(stmts, "\n"))
@@ -892,6 +953,6 @@ func TestVerif_C32(t *testing.T) {
 		"dolt_diff_<t> is compared only for parent/child pairs on which the table has its current schema (dolt issue 11140 documents that the table assumes an unchanged schema)",
 	)
 	defer rec.Write(t)
-	c32Run(t, rec, "pairs", 70, 150, hConfig{Types: hAllTypes, TablePool: []string{"t0", "t1", "t2"}, ColPool: []string{"c0", "c1", "c2", "c3", "c4"},
-		MaxCommits: 4, MaxEdits: 6, Indexes: true, StrPK: true, PKByName: true}, c32Opts{patch: true})
+	c32Run(t, rec, "pairs", 130, 220, hConfig{Types: hAllTypes, TablePool: []string{"t0", "t1", "t2"}, ColPool: []string{"c0", "c1", "c2", "c3", "c4"},
+		MaxCommits: 4, MaxEdits: 7, Indexes: true, StrPK: true, PKByName: true}, c32Opts{patch: true})
 }
